@@ -122,6 +122,30 @@ fn check_graph_x(stats: &mut Stats, g: &G, inputs: &[(&Vec<P>, u32)], class: &st
     }
     if !inputs.iter().any(|(_, l)| edges.iter().any(|e| e.label == *l)) && !edges.is_empty() { stats.fail(PROP, &format!("label_changed.{}", class), &format!("no edge carries an input label {}", detail())); }
     for e in &edges { if !inputs.iter().any(|(_, l)| *l == e.label) { stats.fail(PROP, &format!("label_changed.{}", class), &format!("edge {:?} has label {} which no input had {}", e.cubic, e.label, detail())); break; } }
+    // a crossing AT A VERTEX: the path runs through a graph point P (one edge in, one edge out) that lies on the interior of a straight edge E
+    // which does not end there, arriving from one side of E and leaving to the other: that crossing has to be a shared point, i.e. E has to
+    // be divided at P
+    'vertex: for p in 0..np {
+        if indeg[p] != 1 || outdeg[p] != 1 { continue; }
+        let pos = g.point_position(p);
+        let (ein, eout) = match (edges.iter().find(|e| e.end == p), edges.iter().find(|e| e.start == p)) { (Some(a), Some(b)) => (a, b), _ => continue };
+        let d_in = { let d = bez_d(&ein.cubic, 1.0); if len(d) > 0.0 { d } else { ein.cubic[3] - ein.cubic[0] } };
+        let d_out = { let d = bez_d(&eout.cubic, 0.0); if len(d) > 0.0 { d } else { eout.cubic[3] - eout.cubic[0] } };
+        if !(len(d_in) > 0.0 && len(d_out) > 0.0) { continue; }
+        for (j, e) in edges.iter().enumerate() {
+            if e.start == p || e.end == p || !is_straight(&e.cubic) { continue; }
+            if between_inputs_only && (e.label == ein.label) { continue; }
+            let (a, b) = (e.cubic[0], e.cubic[3]);
+            let t = b - a;
+            if !(len(t) > 0.2) { continue; }
+            if gt(dist_seg(pos, a, b), 1e-9) || !gt(dist(pos, a), 0.05) || !gt(dist(pos, b), 0.05) { continue; }
+            let (s_in, s_out) = (cross(t, d_in) / (len(t) * len(d_in)), cross(t, d_out) / (len(t) * len(d_out)));
+            if s_in.abs() > 0.05 && s_out.abs() > 0.05 && (s_in > 0.0) == (s_out > 0.0) {
+                stats.fail(PROP, &format!("vertex_crossing_not_shared.{}", class), &format!("the path runs through graph point {} at {:?} (in along {:?}, out along {:?}) across edge {} ({:?}, label {}), which is not divided there {}", p, pos, d_in, d_out, j, e.cubic, e.label, detail()));
+                break 'vertex;
+            }
+        }
+    }
     // planarity: no two distinct edges cross transversally away from their end points
     'outer: for i in 0..edges.len() { for j in (i + 1)..edges.len() {
         let (ei, ej) = (&edges[i], &edges[j]);
